@@ -55,6 +55,11 @@ CHECKS = {
     technique="statement-level TLA+ spec of the socket hub (Hub.tla) model-checked by TLC incl. liveness; ALL schedules of REAL threads under a deterministic statement-level scheduler (stateless DFS); API histories validated by TLC against the atomic-API spec HubAbs with TLC choosing linearization points; outcome-set conformance Hub.tla <-> real threads",
     text="Per scenario (6 quick / 9 thorough: FIFO, both directions, callback endpoints, early disconnect, send after the peer left, non-blocking polls, two socket ids, 2 and 4 threads) (a) TLC explores every interleaving of the statement-level model (one action per shared-state statement of socket_hub.py, in the statement order of the working tree) and checks FIFO-prefix, conservation, no stranding at callback endpoints and termination under strong fairness; (b) the rig runs the real ThreadSocket code on real threads, preempting at every source line that touches shared hub state, and enumerates all schedules by stateless DFS pruned by state; states from which no schedule lets the endpoints finish are reported (rendezvous, lost wake-ups); (c) each distinct API history (calls, returns, callback invocations, final queues) is validated by TLC against HubAbs - the property itself - as a linearizability check; (d) the set of outcomes of the real threads must be a subset of the outcomes Hub.tla allows.",
     note="Trusted: TLC, harness/sched.py (sys.settrace scheduler, cooperative lock). Assumes Python statements are atomic (GIL). The callback race found by TLC and by the real-thread exploration was repaired in /repo (f40b165)."),
+ "C07": dict(
+    engine="nv", category="translation_validation", design="5 C07",
+    technique="exact Clifford-frame + Pauli-rotation normal form in TLA+ (Pauli.tla, Gates.tla); every expansion emitted by the REAL NV transpiler is validated by TLC (NvEquiv) against the vanilla gate's denotation; published matrices compared numerically with the denotation exported by TLC",
+    text="For every vanilla gate the transpiler accepts x every placement over electron (id 0) and carbons (ids 1, 2) the real NVSubroutineTranspiler output is handed to TLC, which computes the normal form of the gate and of the expansion on three qubits (so a borrowed electron must be restored) and compares them - equality up to global phase, valid for every input state; MOV is checked by the state-transfer condition in both directions; rotations over (n, d) boundaries, all d <= 8, random pairs, literal pass-through for d > 20, and the hardware-mode angle normalisation for d in 0..4. The published matrix of every instruction class of both flavours is compared numerically (1e-9, up to phase) with the symbolic denotation exported by TLC.",
+    note="Trusted: TLC, the normal-form calculus (Pauli.tla; exact when residual rotations commute, otherwise the check stops with exit 2), numpy for the matrix clause. Defects found and repaired in /repo: S/T adjoints (8beb0e2), crot_y matrix axis (9845c94)."),
 }
 
 REASON_TODO = "check not built yet (work in progress; see DESIGN.md section 9)"
